@@ -220,7 +220,8 @@ def run(rep, facts):
                 rep.violation("R11.5", "record_boundary/boundary-consulted", "after a parse (possibly the tolerated AbortRequest) the drain loop can read again without asking whether a record boundary was reached", n.loc())
     rep.floor("R11.5", "transport reads inside close() (the record-boundary drain)", nreads, 1)
     # stream parser: Err(AbortRequest) is produced only by the header dispatch (i.e. at a record boundary)
-    sites_abort = [b2.npath for (b2, bi, si, st) in F.aggregates_of(facts, "parser::Error") if st["rv"]["vn"] == "AbortRequest" and b2.npath.startswith("parser::stream")]
+    sites_abort = [o for (b2, bi, si, st) in F.aggregates_of(facts, "parser::Error") if st["rv"]["vn"] == "AbortRequest" and b2.npath.startswith("parser::stream")
+                   for o in common.owners(facts, b2.npath)]
     sb = sites.get('stream')
     if sb is not None and set(sites_abort) == {sb.npath}:
         rep.ok("R11.2", "stream/abort-origin", "Error::AbortRequest is constructed only in the header dispatch of the stream parser (reached only at a record boundary)", sb.loc())
